@@ -19,6 +19,9 @@ import (
 
 const mod24 = 1 << 24
 
+// every c11DeepEvery-th history contains a Churn step
+const c11DeepEvery = 128
+
 type c11state struct {
 	real  []security.Count
 	model []uint32
@@ -115,6 +118,51 @@ func c11Apply(st *c11state, i int, s Step, idx int, observe bool) (viol *Viol) {
 	return nil
 }
 
+// c11Churn expands a Churn step: s.A operations on one instance drawn from the
+// stream s.B, biased so that the 2^24-1 -> 0 wrap and the 255 -> 0 carry happen
+// every few operations. Hidden state that only accumulates per wrap, per carry or
+// per call (a side counter, a saturating indicator) is driven hundreds to
+// thousands of events deep, which explicit histories of a few dozen steps never
+// reach. Every expanded operation goes through c11Apply and is observed according
+// to the history's observation mode.
+func c11Churn(st *c11state, s Step, idx int, obs int) *Viol {
+	r := &Rng{s: mix(uint64(s.B)^0xc4c4, 0x11)}
+	for n := int64(0); n < s.A; n++ {
+		var op Step
+		switch x := r.Intn(100); {
+		case x < 30:
+			op = Step{Inst: s.Inst, Op: "AddOne"}
+		case x < 44:
+			op = Step{Inst: s.Inst, Op: "AddOne", A: int64(2 + r.Intn(300))}
+		case x < 45:
+			op = Step{Inst: s.Inst, Op: "AddOne", A: int64(250 + r.Intn(20))}
+			if r.Chance(20) {
+				op.A = []int64{65536, 65537, 4096, 70000}[r.Intn(4)]
+			}
+		case x < 57:
+			op = Step{Inst: s.Inst, Op: "Set", A: 0xffff, B: int64(0xf0 + r.Intn(16))}
+		case x < 62:
+			op = Step{Inst: s.Inst, Op: "SetOverflow", A: []int64{0xffff, 0xfffe, 0, 0x00ff}[r.Intn(4)]}
+		case x < 68:
+			op = Step{Inst: s.Inst, Op: "SetSQN", A: int64(250 + r.Intn(6))}
+		case x < 73:
+			op = Step{Inst: s.Inst, Op: "Set", A: int64(r.U64() & 0xffff), B: int64(r.U64() & 0xff)}
+		case x < 82:
+			op = Step{Inst: s.Inst, Op: "Get"}
+		case x < 91:
+			op = Step{Inst: s.Inst, Op: "SQN"}
+		default:
+			op = Step{Inst: s.Inst, Op: "Overflow"}
+		}
+		observe := obs == 0 || (obs == 1 && n%4 == 3)
+		if v := c11Apply(st, s.Inst, op, idx, observe); v != nil {
+			v.Detail += fmt.Sprintf(" [operation %d of %s: %s]", n, s, op)
+			return v
+		}
+	}
+	return nil
+}
+
 // runC11 executes a history from scratch. Start states are entered with Set.
 func runC11(h History) *Viol {
 	st := &c11state{real: make([]security.Count, len(h.Instances)), model: make([]uint32, len(h.Instances))}
@@ -131,6 +179,12 @@ func runC11(h History) *Viol {
 			continue
 		}
 		observe := h.Obs == 0 || (h.Obs == 1 && i%4 == 3)
+		if s.Op == "Churn" {
+			if v := c11Churn(st, s, i, h.Obs); v != nil {
+				return v
+			}
+			continue
+		}
 		if v := c11Apply(st, s.Inst, s, i, observe); v != nil {
 			return v
 		}
@@ -189,6 +243,7 @@ func genC11(seed, index uint64, start uint32, buf []Step) (History, bool) {
 		h.Instances = append(h.Instances, InstCfg{O: int64(s / 256), S: int64(s % 256)})
 	}
 	n := 8 + r.Intn(33)
+	deep := index%c11DeepEvery == 9 // deep class: one Churn step of thousands of checked operations
 	long := index%64 == 5 // long-run class: bursts of thousands of increments without a setter or a read
 	steps := buf[:0]
 	nontrivial := false
@@ -215,8 +270,23 @@ func genC11(seed, index uint64, start uint32, buf []Step) (History, bool) {
 	}
 	boundaryO := []int64{0, 1, 0xfffe, 0xffff, 0x7fff, 0x8000, 0x00ff, 0x0100}
 	boundaryS := []int64{0, 1, 254, 255, 127, 128}
+	deepAt := -1
+	if deep {
+		deepAt = r.Intn(n)
+	}
 	for len(steps) < n {
 		inst := r.Intn(ninst)
+		if len(steps) == deepAt {
+			deepAt = -1
+			cnt := []int64{600, 2500, 6000, 12000, 40000}[r.Intn(5)]
+			cnt += int64(r.Intn(int(cnt / 2)))
+			nontrivial = true
+			steps = append(steps, Step{Inst: inst, Op: "Churn", A: cnt, B: int64(r.Intn(1000))})
+			// what the generator believes about the state afterwards only steers later
+			// bursts; the runner's model is authoritative
+			model[inst] = 0xffff00
+			continue
+		}
 		switch x := r.Intn(100); {
 		case long && x < 35:
 			// 2^8, 2^16 and 2^17 are where hand-rolled carries and narrow side counters give up
@@ -287,6 +357,13 @@ func c11ShrinkArgs(s Step) []Step {
 	case "SetOverflow":
 		try(0, 0)
 		try(0xffff, 0)
+	case "Churn":
+		if s.A > 1 {
+			try(s.A/2, s.B)
+			try(s.A-s.A/8, s.B)
+			try(s.A-1, s.B)
+		}
+		try(s.A, 0)
 	case "AddOne":
 		if s.A > 1 {
 			try(s.A/2, 0)
@@ -320,7 +397,7 @@ var c11Engine = &engine{
 		if tier == "thorough" {
 			return 6 * mod24 // every start state twice per observation mode, a different seeded history each time
 		}
-		return 1 << 16
+		return 1 << 19
 	},
 	gen: func(seed, idx uint64, tier string) (History, bool, uint64, []string) {
 		start := c11Start(seed, idx, tier)
@@ -331,6 +408,10 @@ var c11Engine = &engine{
 		}
 		class = append(class, fmt.Sprintf("obs_mode_%d", h.Obs))
 		for _, s := range h.Steps {
+			if s.Op == "Churn" {
+				class = append(class, "deep_churn")
+				break
+			}
 			if s.Op == "AddOne" && s.A > 1 {
 				class = append(class, "long_burst")
 				break
@@ -377,12 +458,12 @@ func checkC11(tier string, seed uint64) int {
 		Coverage: map[string]interface{}{
 			"evaluations":         res.histories,
 			"distinct_nontrivial": res.distinct,
-			"rule": "one seeded operation history (8-44 steps over Set/SetSQN/SetOverflow/AddOne/Get/SQN/Overflow, 1-3 interleaved instances; every 64th history is a long-run history with bursts of 255..131k increments; state 0 is also entered as the zero value without Set) per start state; " +
-				"thorough enumerates every one of the 2^24 start states six times (twice per observation mode, a different seeded history each time), quick draws 2^16 boundary-biased ones; non-trivial = the history crosses a 255->0 sequence-number carry " +
+			"rule": "one seeded operation history (8-44 steps over Set/SetSQN/SetOverflow/AddOne/Get/SQN/Overflow, 1-3 interleaved instances; every 64th history is a long-run history with bursts of 255..131k increments; every 128th contains a Churn step that the runner expands into 600-60 000 checked operations biased to wrap 2^24-1 -> 0 and to carry every few operations; state 0 is also entered as the zero value without Set) per start state; " +
+				"thorough enumerates every one of the 2^24 start states six times (twice per observation mode, a different seeded history each time), quick draws 2^19 boundary-biased ones; non-trivial = the history crosses a 255->0 sequence-number carry " +
 				"or the 2^24-1->0 wrap at least once; distinct = distinct start states among those",
 			"samples":                 samples,
 			"exhaustive_start_states": exhaustive,
-			"start_states":            map[bool]uint64{true: mod24, false: 1 << 16}[exhaustive],
+			"start_states":            map[bool]uint64{true: mod24, false: 1 << 19}[exhaustive],
 			"steps_executed":          res.steps,
 			"nontrivial_histories":    res.nontrivial,
 			"history_classes":         res.classes,
@@ -397,7 +478,7 @@ func checkC11(tier string, seed uint64) int {
 		},
 		Assumptions: []string{
 			"start states are entered through Set(overflow, sqn), the only public way to reach them (state 0 also as the zero value)",
-			"the history depth per start state is bounded (8-44 steps, long-run class up to ~10^6 increments); deeper dependence than that is not explored",
+			"the history depth per start state is bounded (8-44 steps, long-run class up to ~10^6 increments, deep class up to 60 000 operations with thousands of wraps and carries); deeper dependence than that is not explored",
 		},
 		WallS: wall, Violations: nviol,
 	})
